@@ -35,6 +35,16 @@ BODY = [
      '</case></switch>'),
     ("in-case-after-dummy-in-earlier-case-chain",
      '<field name="k" type="char"/><switch field="k"><case value="1"><dummy type="char">1</dummy><field name="x" type="char"/></case></switch>'),
+    # flags thread through chunked sections in both directions
+    ("required-in-chunked-after-optional-before-section",
+     '<field name="o" type="char" optional="true"/><chunked><field name="r" type="char"/></chunked>'),
+    ("required-after-chunked-section-ending-in-optional",
+     '<chunked><field name="o" type="char" optional="true"/></chunked><field name="r" type="char"/>'),
+    ("required-after-optional-and-caseless-switch",
+     '<field name="k" type="char"/><field name="o" type="char" optional="true"/><switch field="k"></switch><field name="r" type="char"/>'),
+    ("required-after-optional-and-switch-of-empty-cases",
+     '<field name="k" type="char"/><field name="o" type="char" optional="true"/><switch field="k"><case value="1"/><case value="2"/></switch>'
+     '<field name="r" type="char"/>'),
     ("chunked-section-after-dummy", '<dummy type="char">1</dummy><chunked><field name="a" type="string"/></chunked>'),
     ("chunked-break-after-dummy", '<dummy type="char">1</dummy><chunked><break/><field name="a" type="char"/></chunked>'),
     ("switch-after-dummy", '<dummy type="char">1</dummy><switch field="sel0"><case value="1"><field name="x" type="char"/></case></switch>'),
@@ -93,6 +103,13 @@ NEEDS_CHUNK = [
     ("break-directly-after-dummy", '<dummy type="char">0</dummy><break/>'),
     ("break-after-dummy-in-case", '<field name="k" type="char"/><switch field="k"><case value="1"><dummy type="char">1</dummy></case></switch><break/>'),
     ("delimited-array-after-dummy", '<dummy type="char">0</dummy><array name="a" type="string" delimited="true"/>'),
+    # a <break> inside a case resets the CASE's copy of the flags only: what held before the switch still holds after it
+    ("required-after-optional-and-switch-whose-cases-all-break",
+     '<field name="k" type="char"/><field name="o" type="char" optional="true"/><switch field="k"><case value="1">'
+     '<field name="x" type="char" optional="true"/><break/></case><case default="true"><break/></case></switch><field name="r" type="char"/>'),
+    ("required-after-optional-and-switch-with-one-breaking-case",
+     '<field name="k" type="char"/><field name="o" type="char" optional="true"/><switch field="k"><case value="1"><break/></case></switch>'
+     '<field name="r" type="char"/>'),
 ]
 POSITIONS_CHUNK = ["chunked", "chunkedcase", "nestedchunked", "casechunked"]
 POSITIONS_ALL = ["top", "chunked", "case", "chunkedcase", "afterchunked", "nestedchunked", "casechunked"]
